@@ -196,6 +196,29 @@ def check_c09(tier, seed, log=print):
                               key='%s|%d' % (c['src'], li))
             if li < len(ok) and ok[li] != '1':
                 run.violation('hir-shape', dict(definition=c['src'], leaf=li, what='captured class has an empty byte sequence: complexity_le_twice_len does not apply'), no_input=True)
+    # the consequence the property draws: on its own text a literal token wins against a default-priority regex, or the
+    # definition is refused as ambiguous (what the user gets: the verdict, and the lexer the captured graph describes)
+    lq = {i: ['LEX n ' + c['meta']['literal']] for i, c in enumerate(cases) if c['family'] == 'c09-literal' and caps[i] is not None and caps[i].verdict == 'ACCEPT' and not caps[i].nodump}
+    lans = lean_queries(cases, caps, lq) if lq else {}
+    lit_stats = dict(pairs=0, literal_wins=0, refused_as_ambiguous=0)
+    for i, c in enumerate(cases):
+        if c['family'] != 'c09-literal' or caps[i] is None:
+            continue
+        lit_stats['pairs'] += 1
+        n += 1
+        cap = caps[i]
+        if cap.verdict == 'REJECT':
+            lit_stats['refused_as_ambiguous'] += 1
+            continue
+        v = lans.get((i, 'LEX n ' + c['meta']['literal']), '')
+        ln = len(bytes.fromhex(c['meta']['literal']))
+        if v.split(' ')[0] == '%s:0-%d' % (c['meta']['lit_name'], ln):
+            lit_stats['literal_wins'] += 1
+        else:
+            run.violation('literal-beaten', dict(definition=c['src'], input_hex=c['meta']['literal'], input_text=bytes.fromhex(c['meta']['literal']).decode('utf-8'),
+                                                 lexer_yields=v, what='on the literal\'s own text the accepted lexer does not yield the literal token'),
+                          key='litbeaten|' + c['src'])
+    run.coverage['literal_never_beaten'] = lit_stats
     run.coverage.update(dict(evaluations=n, distinct_nontrivial=len(nontriv),
                              rule='for every leaf of the family definitions and of the lexer corpus: priority recorded by the real derive vs Hir.complexity computed by the Lean model on the captured HIR (regex, skip), '
                                   '2 x byte length (token, with and without ignore(case)), or the explicit value; non-trivial = default priority not in {0, 2}',
